@@ -1448,14 +1448,22 @@ void TopologyKernel::swap_cell_indices(CellHandle _h1, CellHandle _h2)
         return;
 
     // correct pointers to those cells
+    // (a deleted cell has no incidence entries; its stored halffaces may be stale
+    // and belong to another cell by now, so it must not be considered here)
     if (has_face_bottom_up_incidences()) {
+    const bool h1_live = !cell_deleted_[_h1];
+    const bool h2_live = !cell_deleted_[_h2];
+    if (h1_live) {
     for (const auto hfh: cells_[_h1].halffaces()) {
         if (incident_cell_per_hf_[hfh] == _h1)
             incident_cell_per_hf_[hfh] = _h2;
     }
+    }
+    if (h2_live) {
     for (const auto hfh: cells_[_h2].halffaces()) {
         if (incident_cell_per_hf_[hfh] == _h2)
             incident_cell_per_hf_[hfh] = _h1;
+    }
     }
     }
 
